@@ -103,10 +103,11 @@ def check_cfg(ctx, fx, cfg):
     # R05.6 strong atoms are created only in the channel constructors
     ctors = sorted({f["def"] for f, _b, _t in graph.all_calls(fx, lambda t: (t.get("callee") or "") in ("futures_channel::mpsc::channel", "futures_channel::mpsc::unbounded"))})
     ctx.floor("R05.6", "channel constructors", len(ctors), 2)
+    ctor_helpers = graph.private_helpers(fx, set(ctors))
     for key, ent in fx.dyn.items():
         if key.startswith("dyn channel::TxFn<") or key.startswith("dyn channel::ForceTxFn<"):
             sites = [s.get("in") or s.get("param_of") for s in ent["sites"]]
-            ctx.require(all(s in ctors for s in sites) and sites, "R05.6", "%s@%s" % (key, cfg), "a submit closure is created outside the channel constructors: %s" % [s for s in sites if s not in ctors], site=ent["sites"][0]["loc"] if ent["sites"] else None, detail=sites)
+            ctx.require(all(s in ctors or s in ctor_helpers for s in sites) and sites, "R05.6", "%s@%s" % (key, cfg), "a submit closure is created outside the channel constructors: %s" % [s for s in sites if s not in ctors], site=ent["sites"][0]["loc"] if ent["sites"] else None, detail=sites)
     # R05.9 closed list of crate types whose values keep an actor alive
     HOLDERS = {
         "addr::Addr": "strong handle kind", "addr::OwningAddr": "strong handle kind", "addr::sender::Sender": "strong handle kind", "addr::caller::Caller": "strong handle kind",
@@ -143,6 +144,9 @@ def check_cfg(ctx, fx, cfg):
         "<broker::Broker<T> as handler::Handler<broker::Publish<T>>>::handle::", "context::Context::<A>::publish::", "context::Context::<A>::subscribe::",
         "actor::service::Service::setup::", "actor::service::Service::from_registry::",
     )
+    listed = {f["def"] for f in fx.d["fns"] if f["kind"] in ("fn", "assoc_fn") and (f["def"] + "::") in CLOSURE_HOLDERS}
+    # code extracted from a listed function into a private helper used only there belongs to the same entry
+    listed_helpers = graph.private_helpers(fx, listed)
     for o in fx.owns:
         if o["kind"] not in ("closure", "coroutine"):
             continue
@@ -151,6 +155,8 @@ def check_cfg(ctx, fx, cfg):
             continue
         d = o["def"]
         if any((d + "::").startswith(pfx) or d.startswith(pfx) for pfx in CLOSURE_HOLDERS):
+            continue
+        if (fx.fn(d) or {}).get("root") in listed_helpers:
             continue
         c_, p_, a = ka[0]
         ctx.viol("R05.10", "closure-holder:%s@%s" % (d, cfg), "a closure / future outside the closed list owns a strong handle (while it exists the actor cannot see its last handle dropped): %s via %s" % (a["ty"][:70], a["paths"][0][:100]), fn=d, site=(fx.fn(d) or {}).get("loc"))
